@@ -41,6 +41,8 @@ class FcdWorld(au.CutWorld):
     # ---- oracles about one character
     def call(self, m, st, callee, args, term):
         p = callee["path"]
+        if p == "pv::fsplit::step":
+            return self.fsplit_step(m, st, args[0], deref_all(m, st, args[1]))
         if p in self.class_oracles:
             c = args[0]
             if isinstance(c, Ref):
@@ -178,6 +180,167 @@ class FcdWorld(au.CutWorld):
             raise AnalysisError("str::replace rewrites classes %s but is guarded by a search for classes %s" % (sorted(trig), sorted(self.trig)))
         body = self.prog.bodies["pv::synth::str_replace_pred"]
         return (ip.INLINE, body, [Opq("buf", ("prefix",)), Opq("chars", (Str(("suffix",)),)), pred, to], None)
+
+    # ---- str::split(pred) read lazily: a run is handed out before its characters are read; they are read — one
+    # cut point each — when the run is used (push_str, is_empty). Sound for the linear use the discipline
+    # allows: a run token is only valid until the iterator moves on (serial numbers), anything else is an error.
+    def _pred_classes(self, m, st, pred):
+        out = set()
+        for cls in self.alphabet:
+            v = self.eval_pred(m, st, pred, cls)
+            if not isinstance(v, I):
+                raise AnalysisError("split pattern yields %r for class %s" % (v, cls))
+            if v.v:
+                out.add(cls)
+        return tuple(sorted(out))
+
+    def str_split(self, m, st, s, pred, name):
+        delim = self._pred_classes(m, st, pred)
+        term = name == "split_terminator"
+        if isinstance(s, Str) and s.tag == ("input",):
+            if st.ext.get("scenario") == "none" or self.trig is None:
+                raise AnalysisError("str::%s over the whole argument that is not guarded by a search for the same pattern" % name)
+            if set(delim) != set(self.trig):
+                raise AnalysisError("str::%s cuts at classes %s but is guarded by a search for classes %s" % (name, list(delim), sorted(self.trig)))
+            state = "first"  # the first run is everything before the first match: the unchanged prefix
+        elif isinstance(s, Str) and s.tag == ("suffix",):
+            state = "delim"  # a run starts right at the suffix's first character
+        else:
+            raise AnalysisError("str::%s on %r" % (name, s))
+        return Opq("fsplit", (Opq("chars", (Str(("suffix",)),)), pred, state, 0, None, term, delim))
+
+    def _fsplit_store(self, m, st, ref, sp, **kw):
+        f = dict(zip(("chars", "pred", "state", "serial", "peek", "term", "delim"), sp.data))
+        f.update(kw)
+        new = Opq("fsplit", tuple(f[k] for k in ("chars", "pred", "state", "serial", "peek", "term", "delim")))
+        m.store(st, ref.loc, new)
+        return new
+
+    def _fsplit_fetch(self, m, st, ref, sp):
+        """Next character of the split's input: the buffered one, or a read (a cut point). Returns
+        (value | 'END' | Outcome, split value with the buffer emptied)."""
+        peek = sp.data[4]
+        if peek is not None:
+            return peek, self._fsplit_store(m, st, ref, sp, peek=None)
+        r = self.chars_next(m, st, sp.data[0])
+        if isinstance(r, ip.Outcome):
+            return r, sp
+        # (the read aged every character the state holds: reload the iterator value)
+        sp = m.load(st, ref.loc)
+        if r.variant == 0:
+            return "END", sp
+        return r.fields[0], sp
+
+    def split_next(self, m, st, ref, sp):
+        state, serial, term, delim = sp.data[2], sp.data[3], sp.data[5], sp.data[6]
+        if state == "first":
+            self._fsplit_store(m, st, ref, sp, state="expect-delim")
+            return ip.some(Ref(("val", Str(("prefix",)))))
+        if state == "ended":
+            return ip.none()
+        if state == "run":
+            raise AnalysisError("a run of the split is dropped without being read: the analysis reads a run's characters where the run is used")
+        if state == "expect-delim":
+            # positioned at the match that ended the prefix: it is consumed
+            c, sp = self._fsplit_fetch(m, st, ref, sp)
+            if isinstance(c, ip.Outcome):
+                return c
+            if c == "END":
+                self._fsplit_store(m, st, ref, sp, state="ended")
+                return ip.none()
+            if c.name[2] in delim:
+                sp = self._fsplit_store(m, st, ref, sp, state="delim")
+            else:
+                sp = self._fsplit_store(m, st, ref, sp, state="delim", peek=c)
+        # state "delim": another run follows (possibly empty)
+        if term and sp.data[4] is None:
+            c, sp = self._fsplit_fetch(m, st, ref, sp)
+            if isinstance(c, ip.Outcome):
+                return c
+            if c == "END":
+                self._fsplit_store(m, st, ref, sp, state="ended")
+                return ip.none()
+            sp = self._fsplit_store(m, st, ref, sp, peek=c)
+        new_serial = self._fresh_serial(m, st, ref)
+        self._fsplit_store(m, st, ref, sp, state="run", serial=new_serial)
+        return ip.some(Opq("lazy-run", (ref, new_serial)))
+
+    def _fresh_serial(self, m, st, ref):
+        """The smallest serial no run token that can still be used carries (tokens in dead locals cannot be
+        used again, so the numbers stay small and the automaton finite)."""
+        used = set()
+
+        def scan(v, depth=0):
+            if depth > 6:
+                return
+            if isinstance(v, Opq):
+                if v.kind == "lazy-run" and v.data[0] == ref:
+                    used.add(v.data[1])
+                elif isinstance(v.data, tuple):
+                    for x in v.data:
+                        scan(x, depth + 1)
+            elif isinstance(v, (Adt, ip.Tup)):
+                for x in v.fields:
+                    scan(x, depth + 1)
+            elif isinstance(v, Ref) and v.loc[0] in ("val", "valp"):
+                scan(v.loc[1], depth + 1)
+            elif isinstance(v, ip.Clo):
+                for x in v.captures:
+                    scan(x, depth + 1)
+
+        live = au.live_locals(st)
+        for fr in st.frames:
+            for l, v in fr.locals.items():
+                if l in live.get(fr.uid, ()):
+                    scan(v)
+        n = 1
+        while n in used:
+            n += 1
+        return n
+
+    def _run_split(self, m, st, run):
+        ref, serial = run.data
+        sp = m.load(st, ref.loc)
+        if not (isinstance(sp, Opq) and sp.kind == "fsplit"):
+            raise AnalysisError("run of a split whose iterator is gone")
+        if sp.data[3] != serial:
+            raise AnalysisError("a run of the split is used after the iterator moved on: the analysis reads a run's characters where the run is used")
+        return ref, sp
+
+    def fsplit_step(self, m, st, bufref, run):
+        """One character of `buf.push_str(run)`: true while the run goes on."""
+        ref, sp = self._run_split(m, st, run)
+        if sp.data[2] != "run":
+            return ip.boolean(False)  # already known to be finished (is_empty said so)
+        c, sp = self._fsplit_fetch(m, st, ref, sp)
+        if isinstance(c, ip.Outcome):
+            return c
+        if c == "END":
+            self._fsplit_store(m, st, ref, sp, state="ended")
+            return ip.boolean(False)
+        if c.name[2] in sp.data[6]:
+            self._fsplit_store(m, st, ref, sp, state="delim")
+            return ip.boolean(False)
+        self.buf_push(m, st, bufref, c)
+        return ip.boolean(True)
+
+    def run_is_empty(self, m, st, run):
+        ref, sp = self._run_split(m, st, run)
+        if sp.data[2] != "run":
+            return ip.boolean(True)
+        if sp.data[4] is not None:
+            return ip.boolean(False)
+        c, sp = self._fsplit_fetch(m, st, ref, sp)
+        if isinstance(c, ip.Outcome):
+            return c
+        if c == "END":
+            self._fsplit_store(m, st, ref, sp, state="ended")
+            return ip.boolean(True)
+        if c.name[2] in sp.data[6]:
+            self._fsplit_store(m, st, ref, sp, state="delim")
+            return ip.boolean(True)
+        self._fsplit_store(m, st, ref, sp, peek=c)
+        return ip.boolean(False)
 
     def replace_range(self, m, st, s, rng, content, callee):
         """input.replace_range(pos.., mapped rest): the unchanged prefix stays where it is, in the input's own
@@ -388,6 +551,8 @@ def _analyse_once(prog, rep, rule, fn_key, world, args=None):
 
         m.start = start
         aut = au.extract(prog, world2, fn_key, st_args, world.alphabet, result_of=result_desc(prog))
+        # the rebuilt part starts at the first trigger: only a trigger letter can be the first one read
+        aut.first_letters = set(world.trig) if world.trig else None
     except ClassRefinement as e:
         rep.ob(rule, "depends only on the character classes", False, str(e), b.where(), key="%s|trigger-or-map-finer-than-classes" % rule)
         return None
@@ -504,13 +669,8 @@ def _equivalent(aut, alphabet, p, q):
     return True
 
 
-def behavioural_states(aut, alphabet):
-    """Number of states of the loop automaton up to behavioural equivalence (same outputs and results for every
-    letter and at the end, successors equivalent): bookkeeping that the outputs do not depend on — a buffer
-    that is empty until the first push, a flag set once — does not count as state."""
-    if aut.initial.target is None:
-        return 0
-    reach, work = set(), [aut.initial.target]
+def _reach(aut, alphabet, starts):
+    reach, work = set(), list(starts)
     while work:
         q = work.pop()
         if q in reach:
@@ -520,7 +680,27 @@ def behavioural_states(aut, alphabet):
             t = aut.delta.get((q, a))
             if t is not None and t.target is not None:
                 work.append(t.target)
-    states = sorted(reach)
+    return reach
+
+
+def _ev(t):
+    return tuple(e for e in t.events if e[0] in ("push", "pop"))
+
+
+def _steady(aut, alphabet):
+    """(q0, steady states). When the extraction knows which letters can come first (the suffix of a
+    find-then-rebuild function starts with a trigger letter), the initial state's transitions on other letters
+    are unreachable; the steady states are those reachable through a feasible first letter."""
+    q0 = aut.initial.target
+    first = getattr(aut, "first_letters", None)
+    if first is None:
+        return q0, _reach(aut, alphabet, [q0])
+    starts = [aut.delta[(q0, a)].target for a in alphabet if a in first and aut.delta.get((q0, a)) is not None and aut.delta[(q0, a)].target is not None]
+    return q0, _reach(aut, alphabet, starts)
+
+
+def _classes(aut, alphabet, states):
+    states = sorted(states)
     cls = {q: 0 for q in states}
     for _ in range(len(states) + 1):
         sig = {}
@@ -531,7 +711,7 @@ def behavioural_states(aut, alphabet):
                 if t is None:
                     row.append(None)
                 else:
-                    row.append((tuple(e for e in t.events if e[0] in ("push", "pop")), repr(t.result), cls.get(t.target, -1)))
+                    row.append((_ev(t), repr(t.result), cls.get(t.target, -1)))
             sig[q] = tuple(row)
         ids = {}
         new = {}
@@ -540,7 +720,30 @@ def behavioural_states(aut, alphabet):
         if new == cls:
             break
         cls = new
-    return len(set(cls.values()))
+    return cls
+
+
+def behavioural_states(aut, alphabet):
+    """Number of states of the loop automaton up to behavioural equivalence (same outputs and results for every
+    letter and at the end, successors equivalent): bookkeeping that the outputs do not depend on — a buffer
+    that is empty until the first push, a flag set once — does not count as state. An initial state that is
+    left by the first letter counts only if it treats a feasible first letter differently from the rest."""
+    if aut.initial.target is None:
+        return 0
+    q0, steady = _steady(aut, alphabet)
+    if q0 in steady or not steady:
+        return len(set(_classes(aut, alphabet, steady | {q0}).values()))
+    cls = _classes(aut, alphabet, steady)
+    n = len(set(cls.values()))
+    first = getattr(aut, "first_letters", None) or set(alphabet)
+    rep_ = sorted(steady)[0]
+    for a in alphabet:
+        if a not in first:
+            continue
+        t0, t1 = aut.delta.get((q0, a)), aut.delta.get((rep_, a))
+        if t0 is None or t1 is None or _ev(t0) != _ev(t1) or repr(t0.result) != repr(t1.result) or cls.get(t0.target, -1) != cls.get(t1.target, -2):
+            return n + 1
+    return n
 
 
 def letter_outputs(aut, alphabet):
@@ -550,23 +753,16 @@ def letter_outputs(aut, alphabet):
     t0 = aut.initial
     if t0.target is None:
         raise AnalysisError("the mapping loop returns before reading a character")
-    q0 = t0.target
-    reach, work = set(), [q0]
-    while work:
-        q = work.pop()
-        if q in reach:
-            continue
-        reach.add(q)
-        for a in list(alphabet) + [au.END]:
-            t = aut.delta.get((q, a))
-            if t is not None and t.target is not None:
-                work.append(t.target)
-    eq = EquivStates(reach) if behavioural_states(aut, alphabet) == 1 else q0
+    q0, steady = _steady(aut, alphabet)
+    one = behavioural_states(aut, alphabet) == 1
+    # the state the per-letter outputs are read from: a steady one (the initial state may only see some letters)
+    r = q0 if (q0 in steady or not steady) else sorted(steady)[0]
+    eq = EquivStates(steady | {q0}) if one else r
     for a in alphabet:
-        t = aut.delta[(q0, a)]
-        per[a] = (tuple(e for e in t.events if e[0] in ("push", "pop")), eq if (isinstance(eq, EquivStates) and t.target in eq.states) else t.target, t.result)
-    tend = aut.delta[(q0, au.END)]
-    return per, eq, tuple(e for e in tend.events if e[0] in ("push", "pop")), tend.result
+        t = aut.delta[(r, a)]
+        per[a] = (_ev(t), eq if (isinstance(eq, EquivStates) and t.target in eq.states) else t.target, t.result)
+    tend = aut.delta[(r, au.END)]
+    return per, eq, _ev(tend), tend.result
 
 
 class EquivStates:
